@@ -84,7 +84,8 @@ class TableauIntegrator(IntegratorTemplate, abc.ABC):
     
     @is_adaptive.setter
     def is_adaptive(self, adaptivity):
-        self._adaptivity_enabled = adaptivity
+        # `_adaptivity_enabled` is read as "adaptivity switched off" by the getter above
+        self._adaptivity_enabled = not adaptivity
 
     @property
     def stages(self):
